@@ -1293,7 +1293,9 @@ def check_api_discipline(limit=None):
                 except Exception:  # noqa
                     pass
                 after = (parser.current, parser.end, parser.furthest)
-                ok = (0 <= after[0] <= len(wire) and after[1] == before[1] and before[2] <= after[2] <= len(wire))
+                # wfl lo preserved for every lo: neither current nor furthest ends below min(current, furthest)
+                low = min(before[0], before[2])
+                ok = (low <= after[0] <= len(wire) and after[1] == before[1] and before[2] <= after[2] <= len(wire))
                 parser.current = parser.end  # leave restrict_to quietly
                 return ok, before, after
 
